@@ -271,13 +271,59 @@ pub fn check(case: &Case, known: &Known) -> Outcome {
     }
 }
 
+// ---------------------------------------------------------------------------------------
+// A bare name while two relations of *unknown* columns are in scope may belong to either: it is
+// rejected, whatever the program said about that name earlier (enumerated completely).
+
+#[derive(Clone, Debug, Serialize, Deserialize)]
+pub struct OpenCase {
+    pub source: String,
+}
+
+pub fn open_relation_cases() -> Vec<OpenCase> {
+    let mut v = vec![];
+    for n in ["a", "x", "total"] {
+        for hist in ["", " | filter t1.N > 0", " | derive {zq = t1.N + 1}", " | filter N > 0", " | sort {t1.N}", " | derive {zq = t2x.N}"] {
+            for join in ["join t2 (==id)", "join side:left t2 (t1.id == t2.id)", "join zr = t2 (true)"] {
+                for use_ in ["select {N}", "filter N > 0", "sort {N}", "derive {zw = N + 1}", "group {N} (aggregate {zn = count this})"] {
+                    // history before the join (t1 only) or after it (qualified)
+                    let (before, after) = if hist.contains("t2x") { ("", hist.replace("t2x", if join.contains("zr") { "zr" } else { "t2" })) } else if hist.contains("t1.") || hist.is_empty() { ("", hist.to_string()) } else { (hist, String::new()) };
+                    let src = format!("from t1{before} | {join}{after} | {use_}\n").replace('N', n);
+                    v.push(OpenCase { source: src });
+                }
+            }
+        }
+    }
+    v
+}
+
+pub fn check_open(c: &OpenCase, _known: &Known) -> Outcome {
+    let mut out = Outcome::pass();
+    out.key = hash_of(&c.source);
+    out.nontrivial = true;
+    out.classes.push("open_relations".into());
+    match util::compile(&c.source, None) {
+        Compiled::Sql(sql) => Outcome::fail(
+            "ill-scoped program is accepted",
+            json!({"edit": "bare name while two relations of unknown columns are in scope", "broken": c.source, "sql": sql}),
+        ),
+        Compiled::Err(_) => out,
+        Compiled::Panic(_) => Outcome::skip("compiler_panic").class("compiler_panic"),
+    }
+}
+
 pub fn replay_any(_c: &str, case: &Value, known: &Known) -> Option<Outcome> {
+    if _c == "open-relations" {
+        let c: OpenCase = serde_json::from_value(case.clone()).ok()?;
+        return Some(check_open(&c, known));
+    }
     let c: Case = serde_json::from_value(case.clone()).ok()?;
     Some(check(&c, known))
 }
 
 pub fn run(ctx: &Ctx) -> i32 {
     ctx.run_replays(|c, case| replay_any(c, case, &ctx.known));
+    ctx.enumerate("open-relations", open_relation_cases(), |c| check_open(c, &ctx.known));
     ctx.tape_search("one-edit", ctx.n(40_000, 1_500_000), 400, gen_case, |c| check(c, &ctx.known));
     if !ctx.quick() {
         ctx.fuzz_campaign("tape_c10", ctx.fuzz_secs(180), 1200);
